@@ -59,13 +59,13 @@ func (s *Server) DiscoveryRequest(req *pool.Message, address string, receiverFun
 	if err != nil {
 		return fmt.Errorf("cannot marshal req: %w", err)
 	}
-	s.multicastRequests.Store(token.Hash(), req)
-	defer s.multicastRequests.Delete(token.Hash())
 	if _, loaded := s.multicastHandler.LoadOrStore(token.Hash(), func(w *responsewriter.ResponseWriter[*client.Conn], r *pool.Message) {
 		receiverFunc(w.Conn(), r)
 	}); loaded {
 		return pkgErrors.ErrKeyAlreadyExists
 	}
+	s.multicastRequests.Store(token.Hash(), req)
+	defer s.multicastRequests.Delete(token.Hash())
 	defer func() {
 		_, _ = s.multicastHandler.LoadAndDelete(token.Hash())
 	}()
